@@ -150,13 +150,21 @@ func buildData(dir string) (*paths, error) {
 		p.Cdb[g] = filepath.Join(cd, "data.cdb")
 		p.Rdb1[g] = filepath.Join(dir, fmt.Sprintf("rdb1_%d", g))
 		p.Rdb2[g] = filepath.Join(dir, fmt.Sprintf("rdb2_%d", g))
-		if _, err := cdb.CreateCDB(in, p.Cdb[g], &cdb.CreatorOptions{NumCPU: 2}); err != nil {
+		if _, err := cdb.CreateCDB(in, p.Cdb[g], nil); err != nil {
 			fail(fmt.Errorf("CreateCDB: %w", err))
 		}
 		for v := 1; v <= 2; v++ {
 			d := p.Rdb1[g]
 			if v == 2 {
 				d = p.Rdb2[g]
+			}
+			if v == 1 && g == 1 {
+				// v1 keys: the second directory is a copy of the first (saves one compilation;
+				// the scenarios on v1 keys reload between two equal generations)
+				if out, err := exec.Command("cp", "-a", p.Rdb1[0], d).CombinedOutput(); err != nil {
+					fail(fmt.Errorf("cp: %v: %s", err, out))
+				}
+				continue
 			}
 			os.MkdirAll(d, 0o755)
 			if _, err := rdb.CompileToSpecificRDBVersion(in, d, rdb.CompilationOptions{UseV2KeySyntax: v == 2, UseBuilder: true}); err != nil {
